@@ -67,7 +67,7 @@ fn c33_q_verify_signature_3264() {
 
 // ------------------------------------------------------------------ scalar rules
 
-fn any_network() -> Option<NetworkId> {
+pub fn any_network() -> Option<NetworkId> {
     let k: u8 = kani::any();
     match k % 3 {
         0 => None,
@@ -75,7 +75,7 @@ fn any_network() -> Option<NetworkId> {
         _ => Some(NetworkId::Mainnet),
     }
 }
-fn input() -> TransactionInput {
+pub fn input() -> TransactionInput {
     let h: [u8; 32] = kani::any();
     TransactionInput { transaction_id: Hash::new(h), index: kani::any() }
 }
